@@ -148,6 +148,23 @@ def check_case(ctx, case):
         ctx.cleanup_case(d)
         return res.violate('common', 'bkli result is not the maximal common base of its inputs', expect=want, got=R, **detail)
     res.ev('intersections_agreed')
+    # any argument order must satisfy the same description
+    if n > 2 or case.get('i', 0) % 3 == 0:
+        import random
+        perm = list(names)
+        random.Random(case.get('i', 0)).shuffle(perm)
+        if perm != names:
+            rp = cli([ctx.bin('bkli'), '-f', 'json'] + perm, cwd=d)
+            res.execs += 1
+            try:
+                Rp = ser.parse_json_stream(rp.out.decode()) if rp.rc == 0 else None
+            except Exception:
+                Rp = None
+            Rp = [x for x in (Rp or []) if x is not None] or ([{}] if rp.rc == 0 else None)
+            if Rp is None or len(Rp) != 1 or not veq(norm(Rp[0]), norm(want), loose=True):
+                ctx.cleanup_case(d)
+                return res.violate('common', 'bkli with the arguments in another order is not the maximal common base', order=perm, expect=want, got=Rp, **detail)
+            res.ev('permuted_orders_agreed')
     if '$required' in json.dumps(R):
         res.labels.add('has-$required')
     # idempotence: bkli x x == x
